@@ -144,7 +144,7 @@ func cmdFn(args []string) int {
 			}
 			fmt.Printf("  %s [%05d] %-60s %-8s %-7s %.2fs  %s\n", mark, i, o.Name, status, o.Solver, o.Secs, o.Pos)
 			if !okay && o.Text != "" {
-				fmt.Printf("         %s\n", o.Text)
+				fmt.Printf("         %s\n         [%s]\n", o.Text, o.Output)
 			}
 		}
 		if r.Err != nil {
@@ -296,8 +296,17 @@ func cmdCheck(args []string) int {
 	}
 	rc := 0
 	nviol := 0
+	for _, o := range obls {
+		if o.Result == "error" {
+			fmt.Printf("ENGINE-ERROR every solver rejected the query for %s %s\n", o.Fn, o.Name)
+			rc = 2
+		}
+	}
 	repDir := filepath.Join(vd, "replays", *prop)
 	for _, o := range failed {
+		if o.Result == "error" {
+			continue
+		}
 		nviol++
 		os.MkdirAll(repDir, 0755)
 		path := filepath.Join(repDir, smtSym(o.Fn+"__"+o.Name)+".json")
